@@ -69,3 +69,41 @@ def opStorage (j : Json) : Except String Json := do
   | k => .error s!"unknown storage kind {k}"
 
 end Ixai.Driver
+
+namespace Ixai.Driver
+open Lean Ixai.Gen
+
+/-! binary64 execution of the same generated kernels (each Lean `Float` operation rounds like Python's float):
+    bit-for-bit comparison with the Python classes validates the operation ORDER of the translation (C20) -/
+instance : NatCast Float := ⟨Float.ofNat⟩
+instance floatRealOps : RealOps Float where
+  exp := Float.exp
+  log := Float.log
+  floor := Float.floor
+  sqrt := Float.sqrt
+
+def asBits (j : Json) : Except String Float :=
+  match j with
+  | Json.str s => match s.toNat? with
+    | some n => .ok (Float.ofBits n.toUInt64)
+    | none => .error s!"bad float bits {s}"
+  | _ => .error "float bits (decimal string) expected"
+
+def getFloats (j : Json) (k : String) : Except String (List Float) := do
+  (← getArr j k).mapM asBits
+
+def jBits (f : Float) : Json := Json.str (toString f.toBits.toNat)
+
+def opWelfordF (j : Json) : Except String Json := do
+  let vs ← getFloats j "vs"
+  let s := vs.foldl WelfordTracker.update (WelfordTracker.init : WelfordTracker Float)
+  pure <| Json.mkObj [("N", jNat s.N), ("mean", jBits s.mean), ("ss", jBits s.sum_squares), ("var", jBits s.var),
+    ("std", jBits s.std)]
+
+def opESF (j : Json) : Except String Json := do
+  let vs ← getFloats j "vs"
+  let a ← asBits (← j.getObjVal? "alpha")
+  let s := vs.foldl ExponentialSmoothingTracker.update (ExponentialSmoothingTracker.init a)
+  pure <| Json.mkObj [("N", jNat s.N), ("get", jBits s.tracked_value)]
+
+end Ixai.Driver
